@@ -870,6 +870,19 @@ def cases(rng, tier):
         out.append(dict(kind='stress', threads=thread_counts[ci % len(thread_counts)], shared=bool(ci % 2), reps=3,
                         switch=None, reset_perimeter='perimeter' in names,
                         calls=[[n, rng.randint(0, 10 ** 6), size] for n in names]))
+    # the same kernel on inputs of DIFFERENT shapes at the same time: exposes per-call tables or scratch buffers that
+    # were made static / module-level (their content depends on the input's shape, e.g. strides, bounding boxes, grey
+    # levels), which identical concurrent inputs can never show
+    always = ['thin', 'haralick', 'perimeter', 'cwatershed', 'label', 'distance', 'convolve', 'lbp', 'zernike_moments',
+              'surf', 'median_filter', 'erode_shared_bc']
+    extra = [k for k in REGULAR if k not in always]
+    rng.shuffle(extra)
+    same = always + (extra if tier == 'thorough' else extra[:6])
+    for k in same:
+        sizes = rng.sample([9, 12, 14, 17, 21, 26, 33], 3)
+        out.append(dict(kind='stress', threads=rng.choice([4, 8, 16]), shared=False, reps=dict(quick=4, thorough=20, search=8)[tier],
+                        switch=1e-6 if rng.random() < 0.5 else None, reset_perimeter=(k == 'perimeter'),
+                        calls=[[k, rng.randint(0, 10 ** 6), sz] for sz in sizes]))
     for m in range(nmix):
         size = rng.choice([8, 16, 24, 32, 48] + ([64, 96] if tier != 'quick' else []))
         ncalls = rng.randint(3, 8)
